@@ -239,43 +239,48 @@ def resolveOp (srcCtx tgtCtx : List (String × Str)) (sd : SD) : Except Err Op :
   | .error e, _  => .error e
   | _, .error e  => .error e
 
+/-- what one TARBALL directive contributes to the tarball: the member name (the completed target) and the
+    content of its source; a source that is not a readable file is an I/O error -/
+def packEntry (fs : FS) (t : Task) (sd : SD) : Except Err (Path × Nat) :=
+  match completeUrl (clientSrcCtx t.boxes) sd.source, completeUrl (clientTgtCtx t.boxes) sd.target with
+  | .ok s, .ok g => (match fs.read (loc s) with
+                     | some (.data c) => Except.ok (loc g, c)
+                     | _              => Except.error Err.io)
+  | .error e, _  => .error e
+  | _, .error e  => .error e
+
+/-- where the packed tarball is shipped to: `task:///<uid>.tar` -/
+def tarPathOf (t : Task) : Path := normSegs ((urlOf t.boxes.task).path ++ '/' :: tarName t.uid)
+
+/-- the directive the client adds for the agent: unpack `task:///<uid>.tar` -/
+def tarDirective (t : Task) : SD := { source := [], target := "task:///".toList ++ tarName t.uid, action := "Tarball" }
+
+/-- one directive of the client side loop over the (filtered) directives: a TARBALL directive stands for the
+    shipment of the packed tarball the first time one is met and for nothing afterwards; any other directive
+    is resolved into its transfer -/
+def tmgrStep (t : Task) (entries : List (Path × Nat)) (acc : Except Err (List Op × Bool)) (sd : SD) : Except Err (List Op × Bool) :=
+  match acc with
+  | .error e => .error e
+  | .ok (ops, seenTar) =>
+    if sd.action = "Tarball" then
+      (if seenTar then .ok (ops, true) else .ok (ops ++ [Op.put (tarPathOf t) (.tar entries)], true))
+    else match resolveOp (clientSrcCtx t.boxes) (clientTgtCtx t.boxes) sd with
+         | .ok op   => .ok (ops ++ [op], seenTar)
+         | .error e => .error e
+
 /-- client side of input staging: TARBALL sources are packed first, then the transfers run in the
     order of the directives with the tarball in place of the first TARBALL directive -/
 def tmgrInPlan (tb : Tables) (fs : FS) (t : Task) : Except Err (List Op × List SD) :=
-  (fun (acts : List SD) =>
-    if acts = [] then .ok ([], t.inputs)
-    else
-      (fun (tars : List SD) =>
-        -- pack
-        match tars.mapM (fun sd =>
-                match completeUrl (clientSrcCtx t.boxes) sd.source, completeUrl (clientTgtCtx t.boxes) sd.target with
-                | .ok s, .ok g => (match fs.read (loc s) with
-                                   | some (.data c) => Except.ok (loc g, c)
-                                   | _              => Except.error Err.io)
-                | .error e, _  => .error e
-                | _, .error e  => .error e) with
-        | .error e    => .error e
-        | .ok entries =>
-          (fun (tarPath : Path) =>
-            -- the transfers, tarball at the position of the first TARBALL directive
-            (fun (plan : Except Err (List Op × Bool)) =>
-              match plan with
-              | .error e => .error e
-              | .ok (ops, _) =>
-                .ok (ops, if tars = [] then t.inputs
-                          else t.inputs ++ [{ source := [], target := "task:///".toList ++ tarName t.uid, action := "Tarball" }]))
-              (acts.foldl (fun (acc : Except Err (List Op × Bool)) sd =>
-                  match acc with
-                  | .error e => .error e
-                  | .ok (ops, seenTar) =>
-                    if sd.action = "Tarball" then
-                      (if seenTar then .ok (ops, true) else .ok (ops ++ [Op.put tarPath (.tar entries)], true))
-                    else match resolveOp (clientSrcCtx t.boxes) (clientTgtCtx t.boxes) sd with
-                         | .ok op   => .ok (ops ++ [op], seenTar)
-                         | .error e => .error e) (.ok ([], false))))
-            (normSegs ((urlOf t.boxes.task).path ++ '/' :: tarName t.uid)))
-        (acts.filter (fun sd => sd.action = "Tarball")))
-    (t.inputs.filter (fun sd => tb.tmgrIn.contains sd.action))
+  if t.inputs.filter (fun sd => tb.tmgrIn.contains sd.action) = [] then .ok ([], t.inputs)
+  else
+    match ((t.inputs.filter (fun sd => tb.tmgrIn.contains sd.action)).filter (fun sd => sd.action = "Tarball")).mapM (packEntry fs t) with
+    | .error e    => .error e
+    | .ok entries =>
+      match (t.inputs.filter (fun sd => tb.tmgrIn.contains sd.action)).foldl (tmgrStep t entries) (.ok ([], false)) with
+      | .error e => .error e
+      | .ok (ops, _) =>
+        .ok (ops, if (t.inputs.filter (fun sd => tb.tmgrIn.contains sd.action)).filter (fun sd => sd.action = "Tarball") = [] then t.inputs
+                  else t.inputs ++ [tarDirective t])
 
 /-- target defaulting of the agent side stagers -/
 def agentTarget (sd : SD) : Str :=
